@@ -3,7 +3,7 @@
 // Assumed contract of the conversion from math/big (comment-only; installed by /verif/gcv gen-contracts): SetBigInt goes
 // through a sync.Pool and big.Int.Bits, which are outside the subset; what its callers rely on is its documented meaning.
 
-package fr
+package goldilocks
 
 //@ func Element.SetBigInt
 //@ tags any
